@@ -209,3 +209,12 @@ Theorem C02_implies_maximal_prevotes_spec : forall s b tip, Inv tip s -> window 
   exists r, implies_max_prevotes (s_votes s) b = Ok r /\
     (r = true <-> h_mhg b < h_height b /\ forall e, In e (window s) -> i_height e = h_mhg b -> i_gen e = h_gen b).
 Proof. intros s b tip HI. exact (implies_max_prevotes_spec (s_votes s) b tip (inv_hts tip s HI)). Qed.
+
+(* NextHeightBFTParameters(h): the smallest stored parameter height above h, if any (it bounds the height an aggregate commit may
+   certify: C06). *)
+Theorem C02_next_parameter_height_spec : forall ps h, keys_sorted ps ->
+  match next_params_height ps h with
+  | Some k => (exists p, In (k, p) ps) /\ h < k /\ forall k' p', In (k', p') ps -> h < k' -> k <= k'
+  | None => forall k' p', In (k', p') ps -> k' <= h
+  end.
+Proof. exact next_params_height_spec. Qed.
